@@ -74,6 +74,35 @@ def eval_case(pid, pl, res, case, obs, kf_class=None):
                 got = [f["name"] for f in (tab or {}).get("fields", [])]
                 if tab is None or len(got) != len(want) or any(w and w != g for w, g in zip(want, got)):
                     problems.append(f"{t['name']}Vftable slots {got}, expected {want}")
+        elif pid == "C04":
+            # the type's table, inherited slots included: one wrapper per callable slot, dispatching through that slot of the
+            # type's own table accessor; the emitted table struct of a type with a block lists the slots in order
+            if not t["table"]:
+                continue
+            meths = {m["name"]: m for m in it.get("methods", [])}
+            for s in t["table"]:
+                if s["pad"] or s["name"].startswith("_"):
+                    continue
+                m = meths.get(s["name"])
+                if m is None:
+                    problems.append(f"{t['name']}: no wrapper for virtual function `{s['name']}` of its table")
+                elif m["body"].get("k") == "unknown":
+                    res.notes.append(f"case {cid}: {t['name']}::{s['name']} has an unrecognised body (decided by execution only)")
+                elif m["body"].get("k") != "vft" or m["body"].get("fn") != s["name"]:
+                    problems.append(f"{t['name']}::{s['name']} dispatches through `{m['body'].get('fn')}` ({m['body'].get('k')})")
+            if t["ownBlock"]:
+                tab = proj_item(obs, mp + [t["name"] + "Vftable"])
+                want = [s["name"] for s in t["table"]]
+                got = [f["name"] for f in (tab or {}).get("fields", [])]
+                if tab is None or len(got) != len(want) or any(w and w != g for w, g in zip(want, got)):
+                    problems.append(f"{t['name']}Vftable slots {got}, expected {want}")
+                for tgt in pl.targets_for(ptr):
+                    l = pl.layout_of(tgt, cid, mp + [t["name"] + "Vftable"], tab)
+                    if l and tab:
+                        for i, f in enumerate(tab.get("fields", [])):
+                            if l["offs"].get(f["name"]) != i * ptr:
+                                problems.append(f"{t['name']}Vftable slot {i} `{f['name']}` at offset {l['offs'].get(f['name'])} under {tgt}")
+                                break
         elif pid == "C07":
             fwd = [m for m in it.get("methods", []) if m["body"].get("k") == "field"]
             unknown = [m["name"] for m in it.get("methods", []) if m["body"].get("k") == "unknown"]
@@ -154,7 +183,7 @@ def run_inherit(pid, tier, res=None, finish=True):
         if cid % 397 == 0 and obs["accepted"]:
             res.sample({"types": [{k: t[k] for k in ("name", "exposed", "asrefs", "baseHasVft", "ownBlock")} for t in case["oracle"]["types"]],
                         "ptr": case["input"]["ptr"]})
-    if pid in ("C06", "C07"):
+    if pid in ("C04", "C06", "C07"):
         from . import execrig, execplan
         execrig.apply(pl, res, lambda c: execplan.plan_inherit(c, pid), payload, cov)
     cov.update({"evaluations": n_checked, "distinct_nontrivial": n_checked, "accepted_by_code": n_acc,
